@@ -356,9 +356,9 @@ ScnTwoUpd == {Scn(P7, [r1 |-> R(7, 2, 10, 20, f1)], [u1 |-> U(7, 15), u2 |-> U(7
 \* first relays of one project in the epoch: registration races (same / different consumer, same / different session id),
 \* a third relay arrives later; cu chosen so that a fresh budget would exceed the allowance
 ScnRegister == {Scn(<<>>, [r1 |-> R(7, 1, 30, 30, f1), r2 |-> IF c2 = 1 THEN R(s2, 1, 30, 30, f2) ELSE R2(s2, 1, 30, 30, f2),
-                           r3 |-> R(9, 1, 30, 30, FALSE)], upd, ep) :
+                           r3 |-> R(9, 1, 30, 30, FALSE)], ue[1], ue[2]) :
                   f1 \in BOOLEAN, f2 \in BOOLEAN, c2 \in {1, 2}, s2 \in {7, 8},
-                  upd \in {NoProc, [u1 |-> U(7, 35)]}, ep \in {NoProc, [e1 |-> 12]}}
+                  ue \in {<<NoProc, NoProc>>, <<[u1 |-> U(7, 35)], NoProc>>, <<NoProc, [e1 |-> 12]>>}}
 ScnQuick == {Scn(<<>>, [r1 |-> R(7, 1, 30, 30, FALSE), r2 |-> R2(8, 1, 30, 30, TRUE), r3 |-> R(9, 1, 30, 30, FALSE)], NoProc, NoProc),
              Scn(<<>>, [r1 |-> R(7, 1, 30, 30, TRUE), r2 |-> R(7, 1, 30, 30, FALSE), r3 |-> R(9, 1, 30, 30, FALSE)], NoProc, NoProc),
              Scn(<<>>, [r1 |-> R(7, 1, 10, 10, FALSE), r2 |-> R(7, 2, 10, 20, TRUE)], NoProc, [e1 |-> 20]),
@@ -368,7 +368,7 @@ ScnQuick == {Scn(<<>>, [r1 |-> R(7, 1, 30, 30, FALSE), r2 |-> R2(8, 1, 30, 30, T
                 EXCEPT !.ve = 0]}
 ScnAll == ScnCreate \cup ScnUpdate \cup ScnMax \cup ScnMix \cup ScnTwoUpd \cup ScnRegister
 \* small scenarios whose schedules are enumerated exhaustively (thorough tier)
-ScnEnum == {Scn(<<>>, [r1 |-> R(7, 1, 30, 30, FALSE), r2 |-> R2(8, 1, 30, 30, TRUE)], NoProc, NoProc),
+ScnEnum == {Scn(<<>>, [r1 |-> R(7, 1, 30, 30, FALSE), r2 |-> R2(7, 1, 30, 30, FALSE)], NoProc, NoProc),   \* registration race, two consumers, one session id
             Scn(<<>>, [r1 |-> R(7, 1, 10, 10, FALSE), r2 |-> R(7, 2, 10, 20, TRUE)], NoProc, NoProc),
             Scn(<<>>, [r1 |-> R(7, 1, 10, 10, TRUE), r2 |-> R(7, 1, 10, 10, FALSE)], NoProc, [e1 |-> 20]),
             Scn(P7, [r1 |-> R(7, 2, 10, 20, FALSE)], [u1 |-> U(7, 25)], NoProc),
